@@ -185,7 +185,7 @@ class Program:
         segs = base.name.split("::")
         tcrate = crate
         if segs[0] in CRATE_ALIASES: tcrate, segs = CRATE_ALIASES[segs[0]], segs[1:]
-        if segs[0] in ("std", "core", "alloc"): return None
+        if segs[0] in ("std", "core", "alloc") or segs[-1] in STD_TYPES: return None
         tyname = segs[-1]
         out = []
         for c2 in ([tcrate] + [c for c in self.fns if c != tcrate]):
